@@ -416,17 +416,25 @@ fn substring(
 ) -> error::Result<model::Value> {
     let mut args = args.iter();
     let v = String::try_from(args.next().unwrap())?;
-    let s = f64::try_from(args.next().unwrap())?.round() as usize - 1;
-    let c = if let Some(v) = args.next() {
-        Some(f64::try_from(v)?.round() as usize)
+    // XPath 1.0 4.2: the characters whose position p (the first is 1) satisfies
+    // p >= round(start) and, when a length is given, p < round(start) + round(length);
+    // NaN and the infinities behave as these comparisons say.
+    let start = round_half_up(f64::try_from(args.next().unwrap())?);
+    let end = if let Some(v) = args.next() {
+        Some(start + round_half_up(f64::try_from(v)?))
     } else {
         None
     };
-    let (_, mut r) = v.split_at(s);
-    if let Some(c) = c {
-        (r, _) = r.split_at(c);
-    }
-    Ok(model::Value::Text(r.to_string()))
+    let r = v
+        .chars()
+        .enumerate()
+        .filter(|(i, _)| {
+            let p = (i + 1) as f64;
+            p >= start && end.map_or(true, |e| p < e)
+        })
+        .map(|(_, c)| c)
+        .collect::<String>();
+    Ok(model::Value::Text(r))
 }
 
 fn string_length(
